@@ -479,7 +479,11 @@ func bound(r *vh.Run, i int) {
 		defer vh.RemoveAll(root)
 	}
 	N := []int{1, 2, 3, 10}[rng.Intn(4)]
-	c := vh.Conf(kind, root, vh.Neutral)
+	pol := vh.Neutral
+	if (i/2)%3 == 1 {
+		pol.Grace = -1 // expiry disabled: the bound is the only thing that ends idle sessions
+	}
+	c := vh.Conf(kind, root, pol)
 	c.Storage.GC.RepoUploadMax = N
 	srv := vh.New(c)
 	defer srv.Close()
@@ -491,7 +495,7 @@ func bound(r *vh.Run, i int) {
 	var ss []*s
 	clock := 0
 	k := 1 + rng.Intn(3)
-	wit := map[string]any{"batch": i, "store": kind.String(), "limit": N, "extra": k}
+	wit := map[string]any{"batch": i, "store": kind.String(), "limit": N, "extra": k, "expiry_enabled": pol.Grace > 0}
 	for j := 0; j < N+k; j++ {
 		rs := vh.Do(srv, vh.Req{Method: "POST", URL: "/v2/b/blobs/uploads/"})
 		if rs.Status != 202 {
@@ -524,7 +528,7 @@ func bound(r *vh.Run, i int) {
 	time.Sleep(5 * time.Millisecond)
 	ids, _ = srv.VerifUploads(context.Background(), "b")
 	r.Count("bound_trials", 1)
-	r.Distinct("bound_configs", fmt.Sprintf("%d+%d/%s", N, k, kind))
+	r.Distinct("bound_configs", fmt.Sprintf("%d+%d/%s/expiry=%v", N, k, kind, pol.Grace > 0))
 	if !ok || len(ids) > N {
 		r.Violation("bound-exceeded", fmt.Sprintf("%d sessions open with RepoUploadMax=%d after waiting 2s", len(ids), N), wit)
 		return
@@ -819,5 +823,5 @@ func main() {
 	r.Require("evictions_observed", 20)
 	r.Require("expiries_observed", 10)
 	r.RequireDistinct("patch_classes", 20)
-	r.Finish("(1) protocol sequences of 40-80 requests over <=5 interleaved sessions in repositories a and a/b: PATCH with Content-Range right/none/stale/future/malformed x state right/stale/future/malformed/absent, empty chunks, foreign-repository use, cancel, PUT right/wrong/prefix digest/stale state, reuse of finished ids; status query of every open session, conservation (model == hook listing == _uploads files) and prefix-digest probes after every request; (2) RepoUploadMax in {1,2,3,10} with N+k sessions: bound and LRU; (3) expiry with 40/80 ms grace, one-sided timing. A case is one sequence/trial, distinct = (range class, state class) pairs exercised", "cases", "patch_classes")
+	r.Finish("(1) protocol sequences of 40-80 requests over <=5 interleaved sessions in repositories a and a/b: PATCH with Content-Range right/none/stale/future/malformed x state right/stale/future/malformed/absent, empty chunks, foreign-repository use, cancel, PUT right/wrong/prefix digest/stale state, reuse of finished ids; status query of every open session, conservation (model == hook listing == _uploads files) and prefix-digest probes after every request; (2) RepoUploadMax in {1,2,3,10} with N+k sessions, expiry enabled or disabled: bound and LRU; (3) expiry with 40/80 ms grace, one-sided timing. A case is one sequence/trial, distinct = (range class, state class) pairs exercised", "cases", "patch_classes")
 }
